@@ -1,7 +1,10 @@
 package main
 
 import (
+	"fmt"
 	"go/types"
+	"strconv"
+	"strings"
 
 	"golang.org/x/tools/go/ssa"
 )
@@ -28,9 +31,213 @@ func (x *Exec) libStub(fn *ssa.Function, args []Val, site string) (Val, bool) {
 			}
 		}
 		panic(unsupported{"encoding/json.Marshal of a non-empty value"})
+	case "github.com/mitchellh/mapstructure.NewDecoder":
+		// contract stub: the decoder is represented by its configuration
+		x.stubsUsed["mapstructure.Decoder (contract stub: scalar conversions of WeaklyTypedInput only)"] = true
+		return TupleV{PtrV{C: &Cell{V: args[0]}}, IfaceV{}}, true
+	case "(*github.com/mitchellh/mapstructure.Decoder).Decode":
+		return x.mapstructureDecode(args[0].(PtrV).C.V.(PtrV), args[1].(IfaceV)), true
+	// ---- expr-lang: uninterpreted function of the expression text.  Run returns the string
+	// "<text>", an injective image of exactly the text that was compiled.
+	case "github.com/expr-lang/expr.Compile":
+		x.stubsUsed["expr.Compile/Run (uninterpreted: result = \"<\"+text+\">\")"] = true
+		return TupleV{PtrV{C: &Cell{V: args[0]}}, IfaceV{}}, true
+	case "github.com/expr-lang/expr.Run":
+		p := args[0].(PtrV)
+		if p.C == nil {
+			return TupleV{IfaceV{}, x.opaqueErr()}, true
+		}
+		txt := p.C.V.(StrV)
+		out := StrV{B: append(append([]BV{cbv(8, '<')}, txt.B...), cbv(8, '>')), Opaque: txt.Opaque}
+		return TupleV{IfaceV{T: types.Typ[types.String], V: out}, IfaceV{}}, true
+	// ---- go-playground/validator: verdict = uninterpreted function of (value, constraint text),
+	// except required/min/max on strings, which are modelled (length of an ASCII string)
+	case "github.com/go-playground/validator/v10.New":
+		x.stubsUsed["validator.Var/Struct (uninterpreted verdict; required/min/max on ASCII strings modelled)"] = true
+		return PtrV{C: &Cell{V: cbv(64, 0)}}, true
+	case "github.com/go-playground/validator/v10.WithRequiredStructEnabled":
+		return FuncV{Native: func(x *Exec, a []Val) Val { return nil }}, true
+	case "(*github.com/go-playground/validator/v10.Validate).Var":
+		return x.validatorVerdict(args[1].(IfaceV), args[2].(StrV)), true
+	case "(*github.com/go-playground/validator/v10.Validate).Struct":
+		return x.validatorVerdict(args[1].(IfaceV), cstr("<struct>")), true
 	case modelsPath + ".Unmodelled":
 		s, _ := args[0].(StrV).concrete()
 		panic(unsupported{"model gap: " + s})
 	}
 	return nil, false
+}
+
+// mapstructureDecode: contract of Decoder.Decode for the scalar cases the harnesses use
+// (WeaklyTypedInput = true, as go-kid/ioc configures it).  Anything else is inconclusive.
+func (x *Exec) mapstructureDecode(cfg PtrV, in IfaceV) Val {
+	cs := cfg.C.V.(*StructV)
+	// locate DecoderConfig.Result
+	var result IfaceV
+	found := false
+	for _, c := range cs.F {
+		if iv, ok := c.V.(IfaceV); ok && iv.T != nil {
+			if _, isPtr := iv.T.Underlying().(*types.Pointer); isPtr {
+				result, found = iv, true
+			}
+		}
+	}
+	if !found {
+		panic(unsupported{"mapstructure: Result not found"})
+	}
+	if in.T == nil {
+		return IfaceV{}
+	}
+	tt := result.T.Underlying().(*types.Pointer).Elem()
+	dst := result.V.(PtrV).C
+	fail := func(why string) Val { panic(unsupported{"mapstructure stub: " + why}) }
+	switch {
+	case isString(tt):
+		switch v := in.V.(type) {
+		case StrV:
+			dst.V = v
+		case BoolV:
+			if x.branch(v) {
+				dst.V = cstr("1")
+			} else {
+				dst.V = cstr("0")
+			}
+		case OpaqueV:
+			if v.F == nil {
+				return fail("symbolic float -> string")
+			}
+			dst.V = cstr(strconv.FormatFloat(*v.F, 'f', -1, 64))
+		case BV:
+			if !v.Con {
+				return fail("symbolic int -> string")
+			}
+			dst.V = cstr(strconv.FormatInt(sext(v), 10))
+		default:
+			return fail(fmt.Sprintf("%T -> string", in.V))
+		}
+	case isBool(tt):
+		switch v := in.V.(type) {
+		case BoolV:
+			dst.V = v
+		case StrV:
+			s, ok := v.concrete()
+			if !ok {
+				return fail("symbolic string -> bool")
+			}
+			b, err := strconv.ParseBool(s)
+			if err != nil {
+				if s == "" {
+					dst.V = cbool(false)
+				} else {
+					return x.opaqueErr()
+				}
+			} else {
+				dst.V = cbool(b)
+			}
+		default:
+			return fail(fmt.Sprintf("%T -> bool", in.V))
+		}
+	default:
+		if w, signed, ok := bvWidth(tt); ok {
+			switch v := in.V.(type) {
+			case OpaqueV:
+				if v.F == nil {
+					return fail("symbolic float -> int")
+				}
+				if signed {
+					dst.V = cbv(w, uint64(int64(*v.F)))
+				} else {
+					dst.V = cbv(w, uint64(*v.F))
+				}
+			case BV:
+				dst.V = x.convert(v, in.T, tt)
+			case StrV:
+				s, ok := v.concrete()
+				if !ok {
+					return fail("symbolic string -> int")
+				}
+				if s == "" {
+					dst.V = cbv(w, 0)
+				} else if signed {
+					i, err := strconv.ParseInt(s, 0, w)
+					if err != nil {
+						return x.opaqueErr()
+					}
+					dst.V = cbv(w, uint64(i))
+				} else {
+					i, err := strconv.ParseUint(s, 0, w)
+					if err != nil {
+						return x.opaqueErr()
+					}
+					dst.V = cbv(w, i)
+				}
+			default:
+				return fail(fmt.Sprintf("%T -> int", in.V))
+			}
+			return IfaceV{}
+		}
+		if isFloat(tt) {
+			if v, ok := in.V.(OpaqueV); ok {
+				dst.V = v
+				return IfaceV{}
+			}
+		}
+		return fail(fmt.Sprintf("%T -> %s", in.V, tt.String()))
+	}
+	return IfaceV{}
+}
+
+func (x *Exec) validatorVerdict(val IfaceV, tag StrV) Val {
+	t, ok := tag.concrete()
+	if !ok {
+		panic(unsupported{"validator: symbolic constraint text"})
+	}
+	if sv, isStr := val.V.(StrV); isStr && !sv.Opaque {
+		violated := false
+		modelled := true
+		for _, part := range strings.Split(t, ",") {
+			switch {
+			case part == "required":
+				if len(sv.B) == 0 {
+					violated = true
+				}
+			case strings.HasPrefix(part, "min="):
+				n, err := strconv.Atoi(part[4:])
+				if err != nil {
+					modelled = false
+				} else if len(sv.B) < n {
+					violated = true
+				}
+			case strings.HasPrefix(part, "max="):
+				n, err := strconv.Atoi(part[4:])
+				if err != nil {
+					modelled = false
+				} else if len(sv.B) > n {
+					violated = true
+				}
+			default:
+				modelled = false
+			}
+		}
+		if modelled {
+			if violated {
+				return x.opaqueErr()
+			}
+			return IfaceV{}
+		}
+	}
+	// uninterpreted: the same (value, constraint) pair always gets the same verdict on a path
+	key := x.showVal(val) + "|" + t
+	if x.uf == nil {
+		x.uf = map[string]BoolV{}
+	}
+	b, ok := x.uf[key]
+	if !ok {
+		b = x.freshBool()
+		x.uf[key] = b
+	}
+	if x.branch(b) {
+		return x.opaqueErr()
+	}
+	return IfaceV{}
 }
